@@ -237,7 +237,7 @@ func init() {
 		// "none of this can panic or deadlock": first of all the whole scope API at once (subscopes closed
 		// and obtained again while their handles are in use, report passes, snapshots) in a child process -
 		// a racing map or a deadlock ends the child, not the harness
-		apiStorm(ctx, ctx.N(3000, 40000), "no_panic_no_deadlock")
+		apiStorm(ctx, ctx.N(4000, 30000), "no_panic_no_deadlock")
 		if len(ctx.Res.Failures) > 0 {
 			return
 		}
